@@ -97,6 +97,18 @@ def require_scalar_fragment(w: Walker, what: str) -> None:
                             "cover scalar loops over the nodes only - this form is outside the analysable fragment")
 
 
+def prototypes_searched(rep: Rep, repo: Repo, cls: str, pre: str = "") -> bool:
+    """fit runs the prototype search (the spanning-tree step) before anything competes: without it no node is a
+    prototype and the competition starts from an empty queue.  Reported as the violation it is, not as a missing loop."""
+    w = model_walk(repo, cls, "fit")
+    called = [e for e in w.events if e.kind == "call" and (
+        (e.name == "<inline>" and e.target[1].endswith("._find_prototypes")) or e.name == "_find_prototypes")]
+    rep.fn(pre + "PROTO-searched", w.entry, f"{cls}.fit runs the prototype search", bool(called),
+           "no call of _find_prototypes on the fit path: no sample is marked as prototype, so nothing is seeded and every "
+           "training sample keeps its initial state")
+    return bool(called)
+
+
 def competitions_of(repo: Repo, cls: str, method: str, floor: int):
     w = model_walk(repo, cls, method)
     require_scalar_fragment(w, f"{cls}.{method}")
